@@ -169,8 +169,8 @@ class EvictRunner(Runner):
             self.fail('cull/still-over-limit', 'after cull(): volume %d > size_limit %d with %d items' % (vol, self.size_limit, len(self.m.items)))
 
 
-def ops():
-    k = st.sampled_from(['k%d' % i for i in range(24)])
+def ops(nkeys=24):
+    k = st.sampled_from(['k%d' % i for i in range(nkeys)])
     filev = st.tuples(st.just('B'), st.integers(0, 255), st.sampled_from([1024, 2048, 4096, 6000, 8192, 12000, 16384]))
     v = st.one_of(filev, filev, filev, st.tuples(st.just('i'), st.integers(0, 9)), st.tuples(st.just('S'), st.integers(0, 25), st.just(300)))
     ttl = st.sampled_from([None, None, None, 5, 300])
@@ -227,7 +227,8 @@ class Histories(SubCheck):
                 'size_limit': draw(st.sampled_from(SIZE_LIMITS)),
                 'disk_min_file_size': 1024,
             }
-            seq = draw(st.lists(ops(), min_size=15, max_size=steps))
+            # few keys: items are read and re-stored repeatedly before they are evicted (matters for LFU/LRU bookkeeping)
+            seq = draw(st.lists(ops(draw(st.sampled_from([24, 24, 7]))), min_size=15, max_size=steps))
             return {'cfg': cfg, 'ops': seq}
 
         return case()
